@@ -10,3 +10,4 @@ import Gaftools.Props.C11b
 #print axioms Gaftools.C11.groups_flatten
 #print axioms Gaftools.C11.file_output_in_order
 #print axioms Gaftools.C11.file_output_cores_independent
+#print axioms Gaftools.C11.failed_worker_terminates
